@@ -286,7 +286,58 @@ pub fn run_misuse_case(kind: u8, variant: u8, trace: &mut Vec<String>) -> Vec<Fa
     let mut fails = vec![];
     match kind {
         // dependency cycle through one or two binds and another node
+        1 if crate::choice::dv() >= 2 && variant % 16 >= 12 => {
+            // a cycle one of whose links is the link between a bind and a node created by that
+            // bind's function: up = bind(sw, on => leaked n | const), mid = map(up),
+            // down = bind(mid, x => { n = const(x*10); leak n; .. });  n -> up -> mid -> down -> n
+            let sub = variant % 16 - 12;
+            let small_limit = sub % 2 == 1;
+            let down_maps = sub / 2 == 1;
+            trace.push(format!("cycle through a node created inside a downstream bind{}{}", if small_limit { ", height limit 40" } else { "" }, if down_maps { ", the bind returns a map over it" } else { "" }));
+            let st = if small_limit { IncrState::new_with_height(40) } else { IncrState::new() };
+            let sw = st.var(false);
+            let stash: Rc<RefCell<Option<Incr<i32>>>> = Rc::new(RefCell::new(None));
+            let st_ = stash.clone();
+            let up = sw.binds(move |s, on: &bool| if *on { st_.borrow().clone().unwrap() } else { s.constant(0) });
+            let mid = up.map(|x| x + 1);
+            let st_ = stash.clone();
+            let down = mid.binds(move |s, x: &i32| {
+                let n = s.constant(x * 10);
+                st_.replace(Some(n.clone()));
+                if down_maps {
+                    n.map(|y| y + 1)
+                } else {
+                    n
+                }
+            });
+            let o = down.observe();
+            for _ in 0..2 {
+                if let Err(m) = guarded(|| st.stabilise()) {
+                    fails.push(fail("panic-before-cycle", format!("acyclic graph panicked: {m}")));
+                    return fails;
+                }
+            }
+            if o.try_get_value() != Ok(if down_maps { 11 } else { 10 }) {
+                fails.push(fail("value", format!("before the cycle is closed the observer returned {:?}", o.try_get_value())));
+            }
+            sw.set(true);
+            let r = guarded(|| st.stabilise());
+            expect_panic("closing a dependency cycle through a bind's scope link", r, Some("cycl"), &mut fails, trace);
+            let r = guarded(move || {
+                drop(o);
+                drop(down);
+                drop(mid);
+                drop(up);
+                drop(sw);
+                stash.borrow_mut().take();
+                drop(st);
+            });
+            if let Err(m) = r {
+                fails.push(fail("drop-after", format!("dropping the handles after the cycle panic panicked: {m}")));
+            }
+        }
         1 => {
+            let variant = if crate::choice::dv() >= 2 { variant % 16 } else { variant };
             let two = variant % 2 == 1;
             let later = (variant / 2) % 2 == 1;
             let extra = ((variant / 4) % 3) as usize;
@@ -364,7 +415,55 @@ pub fn run_misuse_case(kind: u8, variant: u8, trace: &mut Vec<String>) -> Vec<Fa
             let x = st.var(1i32);
             let ran_after = Rc::new(Cell::new(false));
             let ra = ran_after.clone();
-            let (o, r) = if from_handler {
+            let (o, r) = if from_handler && crate::choice::dv() >= 2 {
+                // decoder 2: there is work pending when the handler calls stabilise; the refusal
+                // must be immediate, i.e. no node function may run inside the nested call
+                let node_level = (variant / 2) % 2 == 1;
+                let m = x.map(|v| v + 1);
+                let o = m.observe();
+                let y = st.var(0i32);
+                let runs = Rc::new(Cell::new(0u32));
+                let runs2 = runs.clone();
+                let ym = y.map(move |v| {
+                    runs2.set(runs2.get() + 1);
+                    v + 1
+                });
+                let yo = ym.observe();
+                let computed_inside = Rc::new(Cell::new(false));
+                let ci = computed_inside.clone();
+                let runs3 = runs.clone();
+                let y2 = y.clone();
+                let mut fired = false;
+                let body = move || {
+                    if fired {
+                        return;
+                    }
+                    fired = true;
+                    y2.set(5);
+                    let before = runs3.get();
+                    let st = ws.upgrade().unwrap();
+                    let res = std::panic::catch_unwind(std::panic::AssertUnwindSafe(|| st.stabilise()));
+                    if runs3.get() != before {
+                        ci.set(true);
+                    }
+                    match res {
+                        Ok(()) => ra.set(true),
+                        Err(e) => std::panic::resume_unwind(e),
+                    }
+                };
+                let mut body = body;
+                if node_level {
+                    m.on_update(move |_| body());
+                } else {
+                    let _tok = o.subscribe(move |_| body());
+                }
+                let r = guarded(|| st.stabilise());
+                if computed_inside.get() {
+                    fails.push(fail("nested-stabilise-computed", "stabilise called from an update handler ran node functions before it was refused".into()));
+                }
+                drop(yo);
+                (o, r)
+            } else if from_handler {
                 let m = x.map(|v| v + 1);
                 let o = m.observe();
                 let _tok = o.subscribe(move |_| {
@@ -491,7 +590,7 @@ pub fn exhaustive_c19(tier: Tier, shard: usize, nshards: usize) -> ExhOutcome {
         }
     }
     for kind in [5u8, 6, 7] {
-        for variant in 0..12u8 {
+        for variant in 0..16u8 {
             run(vec![kind, variant], &mut out);
         }
     }
